@@ -577,6 +577,29 @@ impl Res for A16 {
     }
 }
 
+/// A result whose destructor panics when it runs on a spawned thread (on the main thread it does nothing): the
+/// thread's own disposal of a result nobody will join then is a panic in the thread's epilogue, after the closure
+/// has returned.
+struct Bomb {
+    a: u64,
+}
+impl Res for Bomb {
+    fn make(t: u64) -> Self {
+        Bomb { a: <u64 as Res>::make(t) }
+    }
+    fn feed(&self, h: &mut Fnv) -> u32 {
+        h.bytes(&self.a.to_le_bytes());
+        8
+    }
+}
+impl Drop for Bomb {
+    fn drop(&mut self) {
+        if gettid() != MAIN_TID.load(SeqCst) {
+            panic!("generated panic in the result's destructor");
+        }
+    }
+}
+
 enum H {
     T0(JoinHandle<()>),
     T1(JoinHandle<u8>),
@@ -592,6 +615,7 @@ enum H {
     T11(JoinHandle<Option<u8>>),
     T12(JoinHandle<Verdict>),
     T13(JoinHandle<A16>),
+    T14(JoinHandle<Bomb>),
 }
 
 // ------------------------------------------------------------------------------------------------
@@ -863,6 +887,7 @@ fn spawn_spec(ty: u8, c: Clo) -> Result<H, i32> {
         11 => H::T11(spawn_t(c)?),
         12 => H::T12(spawn_t(c)?),
         13 => H::T13(spawn_t(c)?),
+        14 => H::T14(spawn_t(c)?),
         _ => H::T8(spawn_t(c)?),
     })
 }
@@ -895,6 +920,7 @@ fn join_h(h: H) -> (u8, u64, u32) {
         H::T11(h) => join_t(h),
         H::T12(h) => join_t(h),
         H::T13(h) => join_t(h),
+        H::T14(h) => join_t(h),
     }
 }
 
